@@ -15,25 +15,25 @@ T = {
  "C03": ("exploration", "5/C03", "exactly-once / truthful-end tape checker plus exception identity at the with-boundary, extractor registrations enumerated along MROs",
          "Holds for every (exception class x nesting depth x style) of the matrix and the random programs explored, including BaseException classes and raising extractors.",
          "Extractors return dicts and raise Exception subclasses; fork-per-case isolates the global extractor registry."),
- "C04": ("exploration", "5/C04", "current_action() probes against a shadow stack before/inside/after every scoping construct; parsed tape vs ground truth",
+ "C04": ("exploration", "5/C04", "current_action() probes against a shadow stack before/inside/after every scoping construct (also on other threads, in forked children and in hand-written scenarios); parsed tape vs ground truth",
          "Holds on all probes (hundreds of thousands per run) over random nestings up to depth 8 with exceptional exits, re-entry and generator-held blocks.",
          "Generator-held blocks are closed under proper nesting only (documented use)."),
  "C05": ("exploration", "5/C05", "context probes inside every thread / asyncio task under a line-granular thread scheduler (sys.monitoring) and an await-point scheduler; schedule-independence of the parsed forest",
          "Holds on the interleavings explored (all 1-preemption schedules at statement granularity for small programs, sampled deeper ones, seeded await orders).",
          "Programs are structured (work joined before the enclosing action ends); CPython statement granularity."),
- "C06": ("exploration", "5/C06", "placement checker on merged logs of threads and real child processes in several merge orders; at-most-once monitor for preserve_context under all 1-preemption schedules",
+ "C06": ("exploration", "5/C06", "placement checker on merged logs of threads and real child processes in several merge orders; at-most-once monitor for preserve_context under all 1-preemption schedules; multi-hop chains as one-thread schedules (lock held across a hop = deadlock verdict); fork while another thread is inside the file destination",
          "Holds on the explored hand-off programs (multi-hop, bytes/text ids, fork and subprocess children) and race schedules.",
          "Each serialized id is continued once; merge orders sampled plus worst cases."),
  "C07": ("fault_enumeration", "5/C07", "API-boundary monitor (call returned normally / same exception object / same return object) under hostile values and masked failing serializers, extractors, destinations",
          "Holds on every monitored API call of the explored programs with faults hitting every message kind (reach-checked).",
          "Injected faults are Exception subclasses; extractors return dicts."),
- "C08": ("fault_enumeration", "5/C08", "per-destination accounting (identical offer sequences, one report per failed non-report delivery, none for reports) incl. exhaustive small fault masks",
-         "Holds for all enumerated masks (D destinations x first K calls) and the sampled masks/programs; bounded recursion checked with 1000-message storms.",
-         "Single-threaded; destinations raise Exception subclasses."),
+ "C08": ("fault_enumeration", "5/C08", "per-destination accounting (identical offer sequences, one report per failed non-report delivery, none for reports) incl. exhaustive small fault masks; the same accounting under line-granular thread schedules, for re-delivered start-up buffers, for destinations that log re-entrantly (one-thread schedule: self-deadlock = violation) and for reports cut short by a non-Exception",
+         "Holds for all enumerated masks (D destinations x first K calls), the sampled masks/programs/schedules and the re-entrant / interrupted-report scenarios; bounded recursion checked with 1000-message storms.",
+         "Destinations raise Exception subclasses (one scenario lets a destination raise a non-Exception while it is offered a report); under threads only per-destination sets, per-thread order and report counts are judged."),
  "C09": ("exploration", "5/C09", "order-independence / exact-completeness checker on parser results: all permutations and subsets of small real tasks, sampled orders and subsets of large ones",
          "Exhaustive over permutations and subsets of every generated task with <=6 (quick) / <=7 (thorough) messages; sampled beyond.",
          "Message sets come from well-formed tasks produced by really running programs."),
- "C10": ("exploration", "5/C10", "recording file object (write/flush tape) + independent stdlib JSON decoder, binary vs text differential",
+ "C10": ("exploration", "5/C10", "recording file object (write/flush tape) + independent stdlib JSON decoder, binary vs text differential; file objects whose write/flush raise; a share of the messages encoded in a fresh interpreter without orjson",
          "Holds on every message rendered (tens of thousands per run) over boundary numbers, escape corners, nesting and rich types.",
          "Value domain bounded by orjson's own limits; stdlib json is the reference decoder."),
  "C11": ("fault_enumeration", "5/C11", "post-mortem checker on the file left by a SIGKILLed child vs its acknowledgements; crash injected at every file operation phase",
@@ -41,7 +41,7 @@ T = {
          "Kernel keeps written data of a dead process; power loss out of scope."),
  "C12": ("exploration", "5/C12", "sequential reference model of the destination registry over random op histories; no-loss/no-dup checker for the hand-over under line-granular schedules",
          "Holds on the explored histories and on all 1-preemption schedules of logger thread(s) vs first add_destinations.",
-         "CPython statement granularity; see KNOWN_FINDINGS for the hand-over race."),
+         "CPython statement granularity; the hand-over race found here is fixed in /repo (KNOWN_FINDINGS: fixed); equal-comparing destination objects are never passed to remove_destination."),
  "C13": ("fault_enumeration", "5/C13", "serializer call counters + delivered-value check + caller-data snapshot diff + report placement check, failing-serializer subsets enumerated by mask",
          "Holds on every (message kind x serializer kinds x failing subset / missing field) case explored.",
          "Serializers raise Exception subclasses; Logger.write with explicit serializer uses the library's own serializer object."),
@@ -51,7 +51,7 @@ T = {
  "C15": ("exploration", "5/C15", "context probes inside generator bodies and in drivers; transparency differential vs the undecorated generator",
          "Holds on the explored bodies x driver scripts (send/throw/close, interleaved generators, surrounding actions).",
          "Twisted absent: the generator wrapper itself is monitored, not inlineCallbacks on top."),
- "C16": ("exploration", "5/C16", "invariant evaluated under the logger's own lock at every release + final-state alignment check under line-granular schedules; torn-line checker on a shared file under stress",
+ "C16": ("exploration", "5/C16", "invariant evaluated under the logger's own lock at every release + final-state alignment check under line-granular schedules (incl. a slow lock holder with logical lock timeouts, the production Logger, two json_default functions without orjson); torn-line checker on a shared file under stress",
          "Holds on all 1-preemption schedules at statement granularity of the output layer plus sampled deeper ones, and on the stress runs.",
          "CPython statement granularity; intra-statement atomicity is CPython's."),
  "C17": ("exploration", "5/C17", "differential monitor: LoggedAction/LoggedMessage helpers vs interpreter ground truth and vs parser trees",
@@ -60,7 +60,7 @@ T = {
  "C18": ("exploration", "5/C18", "differential monitor decorated vs undecorated call + start-message check against Python's own argument binding",
          "Holds on the explored signatures x argument lists x options except for the listed known findings (reported as KNOWN-FINDING).",
          "Reference binding = locals observed by the undecorated function."),
- "C19": ("exploration", "5/C19", "producer/consumer history checker (exactly-once, FIFO, single foreign thread, stop barrier) under line-granular schedules with Twisted stubbed",
+ "C19": ("exploration", "5/C19", "producer/consumer history checker (exactly-once, FIFO, single foreign thread, stop barrier, offers never wait) under line-granular schedules with logical timeouts and Twisted stubbed; signal-handler offers in a forked child under OS scheduling",
          "Holds on all 1-preemption schedules of producers/reader/stop and sampled deeper ones, with destination fault masks and start/stop cycles.",
          "twisted is absent: Service and deferToThreadPool are minimal stand-ins."),
  "C20": ("exploration", "5/C20", "renderer completeness checker (independent re-parse of compact/pretty output) + CLI stream monitor in subprocesses",
